@@ -82,7 +82,14 @@ def count(case):
                     got = len(list(g(1.0, method, n, rule.method_order)))
                     if got < need:
                         bad.append((method, n, order, type(g).__name__, got, need))
-    return dict(reproduced=bool(bad), failing=bad[:5], statement='default step count >= rule length')
+                # the documented default count of MinStepGenerator: max((n + order - 1) // divisor, 1) + num_extrap
+                mo = rule.method_order
+                dv = 2 if method in ('central', 'multicomplex') else (4 if (n > 1 or mo >= 4) else 2) if method == 'complex' else 1
+                for extra in (0, 3):
+                    got = len(list(sg.MinStepGenerator(num_extrap=extra)(1.0, method, n, mo)))
+                    if got != max((n + mo - 1) // dv, 1) + extra:
+                        bad.append(dict(method=method, n=n, order=mo, num_extrap=extra, steps_generated=got, documented=max((n + mo - 1) // dv, 1) + extra))
+    return dict(reproduced=bool(bad), failing=bad[:5], statement='default step count >= rule length and == the documented count')
 
 
 @reg('C10.cseq')
